@@ -239,6 +239,15 @@ def c05_cases(tier, rng):
     for (n, e), cb in rotate(rnd, combos, 1, rng):
         yield apply(n, e, cb)
     yield from spline_cases(tier, rng, 500 if tier == "quick" else 3000)
+    # touching layers (LayerSpacing 0) and touching nodes (NodeSpacing 0) under the spline router: the band between two layers
+    # has no height; a call that does return (some hang: known findings of C01, whose business the aborts are) must still
+    # attach its routes.  Fixed and per-node sizes, all positive.
+    combos_t = grid(p1=K.P1S, p2=K.P2S, p4=["sink", "valign", "pack", "nspos"], p5=["splines"], size=["fixed", "all"], pat=["odd", "unit"], ns=[0, 2], ls=[0, 0, 1])
+    touch = random_inputs(rng, 350 if tier == "quick" else 3000, 2, 8, density=1.2, loop_rate=0.02)
+    for (n, e), cb in rotate(touch, combos_t, 1, rng):
+        c = apply(n, e, cb)
+        c["budgetms"] = 1500
+        yield c
     for (n, e), cb in rotate(shaped_inputs(tier), combos, 4, rng):
         yield apply(n, e, cb)
 
@@ -322,6 +331,14 @@ def c16_cases(tier, rng):
     for (n, e), cb in rotate(rnd, combos, 1, rng):
         yield apply(n, e, cb)
     for (n, e), cb in rotate(shaped_inputs(tier), combos, 4, rng):
+        yield apply(n, e, cb)
+    # the property does not depend on how the bands were ordered: also without an ordering phase (OrderingNoop: long edges stay
+    # unbroken, no helper nodes, every node keeps in-layer position 0 - whatever the positioner reads from the orderer is unset)
+    combos_n = grid(p1=K.P1S, p2=K.P2S, p3=["noop"], p4=["valign", "pack"], p5=["straight", "noop"], virt=[1, 0],
+                    size=["all", "fixed"], pat=["het", "odd", "wide1"], ns=[0, 1, 10])
+    noord = [(n, e) for n, e, r in K.family("E44") if r["conn"] == 1 and len(e) >= 2]
+    rng.shuffle(noord)
+    for (n, e), cb in rotate(noord[:600 if tier == "quick" else 3000] + random_inputs(rng, 400 if tier == "quick" else 4000, 4, 14, connected=True), combos_n, 1, rng):
         yield apply(n, e, cb)
     # the spline router too (its control points can lie left of every node): positive sizes and spacings, where it cannot hang
     combos_s = grid(p1=K.P1S, p2=K.P2S, p4=["valign", "pack"], p5=["splines"], virt=[1], size=["all", "fixed"], pat=["odd"], ns=[1, 10], ls=[4, 10])
@@ -447,6 +464,24 @@ def c12_cases(tier, rng):
     for (n, e), cb in rotate(rnd, combos, 1, rng):
         yield apply(n, e, cb)
     yield from nspos_small_budget(tier, rng, 4000 if tier == "quick" else 30000, dict(mon=1), simple=True)
+    # sparse graphs with edges pointing both ways (oriented trees plus 0-2 extra edges, 7-10 nodes, shuffled edge lists): sources
+    # and sinks in the MIDDLE layers, which the median sort skips over (median -1) - exchanges across a skipped node are where
+    # an incremental crossing count goes stale.  Network-simplex layering (longest path puts every sink at the bottom).
+    for i in range(9000 if tier == "quick" else 90000):
+        n = rng.randint(7, 10)
+        es = []
+        for v in range(1, n):
+            u = rng.randrange(v)
+            es.append((u, v) if rng.random() < 0.5 else (v, u))
+        have = set(es) | {(b, a) for a, b in es}
+        for _ in range(rng.choice([0, 0, 1, 2])):
+            a, b = rng.sample(range(n), 2)
+            if (a, b) not in have:
+                es.append((a, b))
+                have |= {(a, b), (b, a)}
+        rng.shuffle(es)
+        nn, ee = K.canon(es)
+        yield apply(nn, ee, dict(p1=K.P1S[i % 3], p2="ns", p4=["sink", "valign", "pack"][i % 3], p5="poly", size=["fixed", "all"][i % 2], pat="odd", ns=2, mon=1))
     # more than 64 layers, at least two nodes per layer, twisted rungs (forces crossings in the high layers)
     tall = [K.ladder(L, w) for L, w in (((66, 2), (70, 2)) if tier == "quick" else ((66, 2), (70, 2), (70, 3), (100, 2), (130, 3)))]
     for n, e in tall:
